@@ -60,6 +60,45 @@ pub mod ruv {
     }
 }
 
+/// C29: the crate-private parts of TOTP — the raw HMAC of `TotpAlgo::digest` and the stored
+/// form (`DbTotpV1`) conversions.
+pub mod c29 {
+    use crate::be::dbvalue::{DbTotpAlgoV1, DbTotpV1};
+    use crate::credential::totp::{Totp, TotpAlgo};
+
+    /// `TotpAlgo::digest(key, counter)`; `Err` carries the `TotpError` debug text.
+    pub fn algo_digest(algo: TotpAlgo, key: &[u8], counter: u64) -> Result<Vec<u8>, String> {
+        algo.digest(key, counter).map_err(|e| format!("{e:?}"))
+    }
+
+    /// `Totp::try_from(DbTotpV1 { key, step, algo, digits, .. })`; `algo`: 1 | 256 | 512.
+    pub fn from_db(key: Vec<u8>, step: u64, algo: u32, digits: Option<u8>) -> Result<Totp, ()> {
+        let algo = match algo {
+            1 => DbTotpAlgoV1::S1,
+            256 => DbTotpAlgoV1::S256,
+            _ => DbTotpAlgoV1::S512,
+        };
+        Totp::try_from(DbTotpV1 {
+            label: "totp".to_string(),
+            key,
+            step,
+            algo,
+            digits,
+        })
+    }
+
+    /// `to_dbtotpv1` flattened: (key, step, algo as 1 | 256 | 512, digits).
+    pub fn to_db(t: &Totp) -> (Vec<u8>, u64, u32, Option<u8>) {
+        let d = t.to_dbtotpv1();
+        let algo = match d.algo {
+            DbTotpAlgoV1::S1 => 1,
+            DbTotpAlgoV1::S256 => 256,
+            DbTotpAlgoV1::S512 => 512,
+        };
+        (d.key, d.step, algo, d.digits)
+    }
+}
+
 /// C02: build the crate-private-keyed `IdxMeta` (attribute, index type, slope) for `Filter::resolve`.
 pub mod c02 {
     use crate::be::{IdxKey, IdxMeta};
